@@ -27,6 +27,35 @@ def to_expr(t):
     raise ValueError(k)
 
 
+def to_expr_shared(t, cache):
+    """Like to_expr, but identical sub-patterns are represented by ONE operator object, within a pattern and (through `cache`)
+    across patterns: `run = OneOrMore("a"); [run, "b", run]` is as legitimate a pattern as one built from fresh objects."""
+    from codelimit.common.gsm.operator.OneOrMore import OneOrMore
+    from codelimit.common.gsm.operator.Optional import Optional
+    from codelimit.common.gsm.operator.Union import Union
+    from codelimit.common.gsm.operator.ZeroOrMore import ZeroOrMore
+
+    k = t[0]
+    if k == "atom":
+        return [t[1]]
+    if k == "seq":
+        return to_expr_shared(t[1], cache) + to_expr_shared(t[2], cache)
+    if t in cache:
+        return [cache[t]]
+    if k == "alt":
+        op = Union(to_expr_shared(t[1], cache), to_expr_shared(t[2], cache))
+    elif k == "opt":
+        op = Optional(to_expr_shared(t[1], cache))
+    elif k == "star":
+        op = ZeroOrMore(to_expr_shared(t[1], cache))
+    elif k == "plus":
+        op = OneOrMore(to_expr_shared(t[1], cache))
+    else:
+        raise ValueError(k)
+    cache[t] = op
+    return [op]
+
+
 def show(t) -> str:
     k = t[0]
     if k == "atom":
